@@ -2,7 +2,7 @@
 import itertools
 from spacepackets.ccsds import spacepacket as sp
 from spacepackets.ecss.req_id import RequestId
-from spacepackets.ecss.fields import PacketFieldEnum
+from spacepackets.ecss.fields import PacketFieldEnum, PacketFieldU8, PacketFieldU16, PacketFieldU32
 from spacepackets.ecss import pus_1_verification as s1
 from spacepackets.ecss.tc import PusTc
 from spacepackets.ecss.tm import PusTm
@@ -168,6 +168,13 @@ def impl(op, a):
         x = PacketFieldEnum(a[0][0], a[0][1]); y = PacketFieldEnum(a[0][2], a[0][3]); return [[int(x == y)]]
     if op == 716:
         return [list(PacketFieldEnum.unpack(bytes(a[0]), a[1][0]).pack())]
+    if op == 717:
+        cls = {1: PacketFieldU8, 2: PacketFieldU16, 4: PacketFieldU32}[a[0][0]]
+        f = cls(a[0][1]); b = f.pack(); return [list(b), [f.len()]]
+    if op == 732:
+        x = _vp(a, 0); y = _vp(a, 4); return [[int(x == y)]]
+    if op == 749:
+        x = _srv1(a[:6]); y = _srv1(a[6:]); return [[int(x == y)]]
     if op == 720:
         f = s1.FailureNotice(PacketFieldEnum(a[0][0], a[0][1]), bytes(a[1])); b = f.pack(); return [list(b), [f.len()]]
     if op == 721:
@@ -379,7 +386,35 @@ def streams(tier, rng):
         w1, w2 = rng.choice(WIDTHS), rng.choice(WIDTHS)
         v1 = rng.randrange(4); v2 = rng.randrange(4)
         cases.append((715, [[8 * w1, v1, 8 * w2, v2]]))
+    for w in (1, 2, 4):
+        for v in bnd(w) + [256 ** w, -1]:
+            cases.append((717, [[w, v]]))
     yield "pfe_values", "exact", cases
+    # 5b. whole-object equality of VerificationParams / Service1Tm built independently
+    cases = []
+    for _ in range(8000 if big else 1500):
+        a = rand_report(rng)
+        b = [list(x) for x in a]
+        r = rng.random()
+        if r < 0.25:
+            pass
+        elif r < 0.5:
+            i = rng.randrange(6); b[2][i] = a[2][i] ^ (1 << rng.randrange([3, 1, 1, 11, 2, 14][i]))
+        elif r < 0.6 and b[3][0]:
+            b[3][2] = (b[3][2] + 1) % 256
+        elif r < 0.7 and b[4][0]:
+            b[4][2] = (b[4][2] + 1) % 256
+        elif r < 0.8 and b[4][0]:
+            b[5] = b[5] + [1] if rng.random() < 0.5 else pc.rbytes(rng, len(b[5]))
+        elif r < 0.9:
+            b[3] = [0] if b[3][0] else [1, 8, 1]
+        else:
+            b[4] = [0] if b[4][0] else [1, 8, 1]; b[5] = [] if not b[4][0] else b[5]
+        cases.append((732, a[2:6] + b[2:6]))
+        b2 = rand_report(rng, a[0][1]) if rng.random() < 0.3 else b
+        if shape_ok(b2[0][1], b2[3], b2[4]):
+            cases.append((749, a[:6] + b2[:6]))
+    yield "whole_object_equality", "exact", cases
     # 6. FailureNotice
     cases = []
     for w in WIDTHS:
@@ -686,6 +721,27 @@ def oracle(case, ires, sres):
             if ires[1] != [1]:
                 return ("C15/FailureNotice.__eq__/identity",
                         "a decoded failure notice does not compare equal to the original with the same code and data: %s" % (a,))
+        return None
+    if op == 717:
+        w, val = a[0]
+        if 0 <= val < 256 ** w:
+            if err or ires[1] != be(w, val) or ires[2] != [w]:
+                return ("C15/PacketFieldU.pack/layout", "%s -> %s" % (a[0], ires))
+        elif not err:
+            return ("C15/PacketFieldEnum.pack/range", "value %d packed in %d octets: %s" % (val, w, ires))
+        return None
+    if op in (732, 749):
+        x, y = (a[0:4], a[4:8]) if op == 732 else (a[2:6], a[8:12])
+        if not all(reqid_ok(v[0]) and (v[1][0] == 0 or pfe_ok(v[1])) and (v[2][0] == 0 or pfe_ok(v[2])) for v in (x, y)):
+            return None
+        if x[1][0] != y[1][0]:
+            return None     # comparing a present step ID with an absent one is outside the property
+        same = reqid_layout(x[0]) == reqid_layout(y[0]) and x[1] == y[1] and x[2] == y[2] and (x[3] == y[3] or not x[2][0])
+        if op == 749:
+            same = same and a[0][:6] == a[6][:6] and a[1] == a[7]
+        if err or ires[1] != [int(same)]:
+            return ("C15/%s.__eq__/whole-object" % ("VerificationParams" if op == 732 else "Service1Tm"),
+                    "== answered %s for %s vs %s (same parameters: %s)" % (ires, x, y, same))
         return None
     if op == 730:
         k = a[4][0]
